@@ -87,6 +87,25 @@ def check_edge_jacobians(seed, n_per):
             vals = gen_case(rng, name, fl)
             try:
                 e, kinds = ce.build(name, vals)
+                for v in e.vertices:             # an anchored vertex (or the first vertex after an optimize()): the derivative is what it is
+                    if rng.random() < 0.25:
+                        v.fixed = rng.choice([True, np.bool_(True), 1])
+                if all(k in ('R2', 'R3') for k in kinds if k) and rng.random() < 0.5:
+                    # R^n edges are affine: their Jacobians do not depend on where the points are -- bitwise the same matrices near the origin
+                    # and at survey coordinates (UTM / ECEF magnitudes)
+                    J0 = [np.asarray(J, dtype=np.float64).copy() for J in e.calc_jacobians()]
+                    shift = np.array([rng.uniform(-1, 1) * 6.4e6 for _ in range(len(np.asarray(e.vertices[0].pose)))])
+                    keep = [v.pose for v in e.vertices]
+                    for v in e.vertices:
+                        v.pose = type(v.pose)(np.asarray(v.pose, dtype=np.float64) + shift)
+                    J1 = [np.asarray(J, dtype=np.float64).copy() for J in e.calc_jacobians()]
+                    for v, p0 in zip(e.vertices, keep):
+                        v.pose = p0
+                    evals += 1
+                    if any(a.shape != b.shape or not np.array_equal(a, b) for a, b in zip(J0, J1)):
+                        fails.append({'edge': name, 'vals': vals, 'why': 'the Jacobians of an affine R^n edge change when both points are moved by %s: max difference %g'
+                                      % (shift.tolist(), max(float(np.abs(a - b).max()) for a, b in zip(J0, J1) if a.shape == b.shape)), 'shift': shift.tolist()})
+                        continue
                 seq = None
                 if rng.random() < 0.3:
                     # HISTORY that must not matter: the error / chi2 was evaluated at other poses, then a vertex pose array was
@@ -125,6 +144,29 @@ def check_edge_jacobians(seed, n_per):
 
 # ------------------------------------------------------------------------------------------------
 # C02: measurement model against an independent numpy homogeneous-matrix implementation
+def prebind(rng, edges, verts, p=0.3):
+    """Some of the edge objects arrive ALREADY BOUND to foreign Vertex objects with the same ids and pose types but other estimates (as if
+    constructed with vertices=[...], or used by an earlier Graph built from another initial guess).  Graph(edges, verts) must re-bind them."""
+    if rng.random() > p or not edges:
+        return False
+    from graphslam.vertex import Vertex as _V
+    from graphslam.graph import Graph as _G
+    decoy = {}
+    for v in verts:
+        d = np.array([rng.gauss(0, 0.7) for _ in range(v.pose.COMPACT_DIMENSIONALITY)])
+        decoy[v.id] = _V(v.id, v.pose + d)
+    if rng.random() < 0.5:
+        try:
+            _G(list(edges), list(decoy.values()))       # an earlier graph over the decoys
+        except Exception:  # noqa
+            pass
+    else:
+        for e in edges:
+            if rng.random() < 0.7 and all(i in decoy for i in e.vertex_ids):
+                e.vertices = [decoy[i] for i in e.vertex_ids]
+    return True
+
+
 def rand_spd(rng, n, cond=1e3):
     A = np.array([[rng.gauss(0, 1) for _ in range(n)] for _ in range(n)])
     Q, _ = np.linalg.qr(A)
@@ -170,6 +212,17 @@ def measurement_model(seed, n_per):
             vals = unit_vals(gen_case(rng, name, fl), kinds)
             try:
                 e, _ = ce.build(name, vals)
+                if all(k in ('R2', 'R3') for k in kinds if k) and rng.random() < 0.35:
+                    # points given as numpy arrays of another dtype (pixel / voxel coordinates as uint8 or int8, float32 data): the SAME numbers
+                    dt = rng.choice([np.uint8, np.int8, np.uint16, np.float32, np.int64])
+                    lo, hi = (0, 250) if dt in (np.uint8, np.uint16) else (-120, 120)
+                    for v in e.vertices:
+                        arr = np.array([rng.randint(lo, hi) for _ in range(len(np.asarray(v.pose)))], dtype=dt)
+                        v.pose = type(v.pose)(arr)
+                    if rng.random() < 0.5 and getattr(e, 'offset', None) is not None:
+                        e.offset = type(e.offset)(np.array([rng.randint(lo, hi) for _ in range(len(np.asarray(e.offset)))], dtype=dt))
+                    vals = [[float(x) for x in np.asarray(e.vertices[0].pose)], [float(x) for x in np.asarray(e.vertices[1].pose)], vals[2],
+                            ([float(x) for x in np.asarray(e.offset)] if getattr(e, 'offset', None) is not None else None)]
                 evals += 1
                 err = np.asarray(e.calc_error(), dtype=np.float64)
                 sc = 1.0 + max(abs(x) for v in vals if v for x in v) ** 2
@@ -252,7 +305,7 @@ def measurement_model(seed, n_per):
     # graph chi2 = sum of edge chi2
     from graphslam.vertex import Vertex
     from graphslam.edge.edge_odometry import EdgeOdometry
-    for i in range(max(2, n_per // 3)):
+    for i in range(max(8, n_per // 2)):
         evals += 1
         nv = rng.randint(2, 6)
         # any pattern of fixed vertices (edges between two fixed vertices still count in chi2)
@@ -263,11 +316,15 @@ def measurement_model(seed, n_per):
             if a == b:
                 continue
             es.append(EdgeOdometry([a, b], rand_spd(rng, 3), cp.make_pose('SE2', ce.gen_vals(rng, 'SE2', 'typical'))))
+        prebind(rng, es, vs, 0.4)
         g = Graph(es, vs)
         tot = g.calc_chi2()
         ref = 0.0
+        byid = {v.id: v for v in vs}
         for e in es:
-            ref = ref + e.calc_chi2()
+            e2 = copy.copy(e)          # the edge evaluated at THIS graph's vertices, bound here by id
+            e2.vertices = [byid[i] for i in e2.vertex_ids]
+            ref = ref + e2.calc_chi2()
         if tot != ref:
             fails.append({'edge': 'graph', 'law': 'graph chi2 is not the sum of the edge chi2 in list order', 'total': float(tot), 'sum': float(ref)})
             continue
@@ -369,6 +426,7 @@ def build_graph(rng, kind, nv=None, landmarks=True, noise=0.02, pert=0.05, info_
                     z = PP(np.asarray(z) + np.array([rng.gauss(0, noise) for _ in range(ce.DIM[pk])]))
                 # offset_id is only a label for the .g2o export: an in-memory edge may carry an offset without one
                 edges.append(EdgeLandmark([a, lid], info(ce.DIM[pk]), z, offset=off, offset_id=(j if rng.random() < 0.5 else None)))
+    prebind(rng, edges, verts)
     return Graph(edges, verts), truth + lms
 
 
